@@ -2196,9 +2196,28 @@ fn directed(i: usize) -> Option<SessionSpec> {
 /// over the sweep every jump target of that line takes every value in a window of SWEEP bytes in the
 /// model program - whatever magic value, operand-width boundary or alignment a compiler shortcut
 /// might stumble over.
-pub const SWEEP: u64 = 2048;
+pub const SWEEP_BYTES: u64 = 2048;
+/// ... followed by the *constant-index sweep*: the padding line consists of k statements with k
+/// distinct literals (k = 0 .. 639; the literal pool restarts with every session line and accumulates
+/// in the growing program, so the second line's literals - numbers, texts, floats, inside and outside
+/// a function - get the indices k .. k+n in the model and 0 .. n in the session, crossing 256 and 512).
+pub const SWEEP_CONSTS: u64 = 640;
+pub const SWEEP: u64 = SWEEP_BYTES + SWEEP_CONSTS;
+
+fn const_sweep(k: usize) -> Vec<SLine> {
+    let pad: Vec<SStmt> = (0..k).map(|j| st(&format!("{};", 100_000 + j), false)).collect();
+    let observer = vec![
+        st("stel w = [7, 2.25, \"tekst\", 100000, 100255, 100256];", true),
+        st("functie h(a) { stel l = [a, 3.5, \"in\", 11, 100001]; als a > 1 { l[0] = h(a - 1); }; l };", true),
+        st("[w, h(3), 12.5, \"uit\", 13];", false),
+    ];
+    vec![line("pad-consts", pad, Fail::None, k > 0, false), line("literals", observer, Fail::None, true, false)]
+}
 
 fn offset_sweep(o: usize) -> Vec<SLine> {
+    if o as u64 >= SWEEP_BYTES {
+        return const_sweep(o - SWEEP_BYTES as usize);
+    }
     let o = o.max(2);
     let threes = o % 2;
     let twos = (o - 3 * threes.min(o / 3)) / 2;
